@@ -198,6 +198,7 @@ func commands() []*Config {
 		mk("histo", true, false, cat([]string{"histo"}, cat(m, "-e", "{1}", "-e", "{3}")...)...),
 		mk("histo-text-sort", true, false, cat([]string{"histo", "--sort", "text"}, cat(m, "-e", "{2}")...)...),
 		mk("table", true, false, cat([]string{"table"}, t...)...),
+		mk("table-totals", true, false, cat([]string{"table", "-x"}, t...)...),
 		mk("heatmap", true, false, cat([]string{"heatmap"}, t...)...),
 		mk("spark", true, false, cat([]string{"spark"}, t...)...),
 		mk("spark-cols1", true, false, cat([]string{"spark", "--cols", "1"}, t...)...),
@@ -309,18 +310,19 @@ func diff(a, b *result) string {
 	case a.CSV != b.CSV:
 		return "csv-differs"
 	case a.Stdout != b.Stdout:
-		if trimLeft(a.Stdout) == trimLeft(b.Stdout) {
-			return "snapshot-differs/indentation-only"
+		if squeeze(a.Stdout) == squeeze(b.Stdout) {
+			return "snapshot-differs/spacing-only"
 		}
 		return "snapshot-differs/content"
 	}
 	return ""
 }
 
-func trimLeft(s string) string {
+// squeeze collapses runs of spaces (column padding and indentation).
+func squeeze(s string) string {
 	ls := strings.Split(s, "\n")
 	for i := range ls {
-		ls[i] = strings.TrimLeft(ls[i], " ")
+		ls[i] = strings.Join(strings.Fields(ls[i]), " ")
 	}
 	return strings.Join(ls, "\n")
 }
